@@ -201,6 +201,11 @@ class FakeConnection(object):
     def getpeercert(self, binary_form=False):
         return self.cert
 
+    def fileno(self):
+        # a real socket has a descriptor number, and the operating system hands the number of a
+        # closed connection to the next one: every scripted connection reports the same number
+        return 7
+
     def cipher(self):
         return ("TLS_FAKE", "TLSv1.2", 256)
 
